@@ -37,6 +37,8 @@ type Case struct {
 	Paths    []int          `json:"paths,omitempty"`
 	Encoding string         `json:"encoding,omitempty"`
 	DataType string         `json:"data_type,omitempty"`
+	// NoCandidate: GetData addresses a candidate that does not exist (the cache read cannot even be started)
+	NoCandidate bool `json:"no_candidate,omitempty"`
 	Subs     []Sub          `json:"subs,omitempty"`
 	// how the client ends
 	End     string `json:"end"`      // exhaust | cancel-at-send | fail-from-send | fail-from-send-and-cancel | stall-then-cancel | cancel-after
@@ -68,6 +70,7 @@ func gen(t *rapid.T) *Case {
 		c.Encoding = rapid.SampledFrom([]string{"STRING", "PROTO", "JSON", "JSON_IETF"}).Draw(t, "encoding")
 		c.DataType = rapid.SampledFrom([]string{"ALL", "CONFIG", "STATE"}).Draw(t, "datatype")
 		ends = append(ends, "exhaust", "exhaust")
+		c.NoCandidate = rapid.IntRange(0, 7).Draw(t, "no-candidate") == 0
 	case "subscribe":
 		n := rapid.IntRange(1, 4).Draw(t, "nsubs")
 		for i := 0; i < n; i++ {
@@ -208,6 +211,13 @@ func Exec(c *Case) (nontrivial bool, labels []string, fail *vlib.Failure) {
 		cancel, sendCount = st.Cancel, func() int { return len(st.Messages()) }
 		req := &sdcpb.GetDataRequest{Name: h.DSName, Path: paths(c.Paths), DataType: dataType(c.DataType),
 			Encoding: sdcpb.Encoding(sdcpb.Encoding_value[c.Encoding]), Datastore: &sdcpb.DataStore{Type: sdcpb.Type_MAIN}}
+		if c.NoCandidate {
+			req.Datastore = &sdcpb.DataStore{Type: sdcpb.Type_CANDIDATE, Name: "nosuch"}
+			if c.DataType == "STATE" {
+				req.DataType = sdcpb.DataType_CONFIG
+			}
+			lab["getdata-on-missing-candidate"] = true
+		}
 		go func() { done <- srv.GetData(req, st) }()
 	case "subscribe":
 		st := vlib.NewFakeStream[sdcpb.SubscribeResponse](pctx)
@@ -243,7 +253,16 @@ func Exec(c *Case) (nontrivial bool, labels []string, fail *vlib.Failure) {
 		returned = true
 	case <-event:
 		eventSeen = true
-	case <-time.After(250 * time.Millisecond):
+	case <-time.After(func() time.Duration {
+		if c.RPC == "getdata" && c.End == "exhaust" {
+			// finite data and a client that keeps reading: the handler has to end by itself
+			return bound
+		}
+		return 250 * time.Millisecond
+	}()):
+		if c.RPC == "getdata" && c.End == "exhaust" {
+			return true, keys(lab), vlib.Failf("C19:getdata:does-not-return:exhaust", "GetData did not return within %v although the client read everything that was sent (%d messages); goroutines of the call:\n%s", bound, sendCount(), stacks(before))
+		}
 		// neither the event nor a return: the end event can not happen any more (e.g. send index never reached
 		// on a subscription without data): cancel as a client would and apply the bound from here
 		lab["event-never-reached"] = true
